@@ -14,6 +14,7 @@ mod pygen;
 mod rng;
 mod roundtrip;
 mod simdict;
+mod stacksim;
 mod toksim;
 mod world;
 mod worldcache;
@@ -117,9 +118,17 @@ fn main() {
                 }
             }
         }
+        "stackprobe" => {
+            // vsim stackprobe --seed S --case K : one scenario per process (a stack overflow kills the process)
+            let case: u64 = opts.extra.get("case").and_then(|s| s.parse().ok()).unwrap_or(0);
+            let (rc, v) = stacksim::run(opts.seed, case, &opts.work);
+            crate::outln!("{}", v);
+            let _ = std::fs::remove_dir_all(&opts.work);
+            rc
+        }
         "mirigen" => {
             let out = opts.extra.get("out").cloned().unwrap_or_else(|| "/verif/work/miri".to_string());
-            match mirigen::generate(opts.seed, std::path::Path::new(&out)) {
+            match mirigen::generate(opts.seed, std::path::Path::new(&out), opts.extra.contains_key("big")) {
                 Ok(()) => 0,
                 Err(e) => {
                     eprintln!("HARNESS-ERROR: mirigen: {}", e);
